@@ -1067,6 +1067,9 @@ impl TypeSpace {
             ),
         ];
 
+        // The type to use when the bounds match no type exactly.
+        let mut fallback = "i64";
+
         if let Some(format) = format {
             if let Some((_fmt, ty, nz_ty, imin, imax)) = formats
                 .iter()
@@ -1099,6 +1102,8 @@ impl TypeSpace {
                 // The format's range applies in addition to explicit bounds.
                 min = Some(min.map_or(*imin, |m| m.max(*imin)));
                 max = Some(max.map_or(*imax, |m| m.min(*imax)));
+                // ... so the format's own type can hold every permitted value.
+                fallback = ty;
             }
         }
 
@@ -1163,7 +1168,7 @@ impl TypeSpace {
             // bounds.
             // TODO failing that, we should find the type that most tightly
             // matches these bounds.
-            Ok((TypeEntry::new_integer("i64"), metadata))
+            Ok((TypeEntry::new_integer(fallback), metadata))
         }
     }
 
